@@ -456,6 +456,10 @@ def run_whatshap(
 
         superreads: Dict[str, ReadSet]
         components: Dict
+        # The lists of changed genotypes and of recombination events are written piecewise
+        # (per chromosome, per family); only the first piece starts a new file.
+        gtchange_list_started = False
+        recombination_list_started = False
         for variant_table in timers.iterate("parse_vcf", vcf_reader):
             chromosome = variant_table.chromosome
             if chromosomes and chromosome not in chromosomes:
@@ -647,7 +651,9 @@ def run_whatshap(
                         recombination_costs,
                         transmission_vector,
                         trios,
+                        append=recombination_list_started,
                     )
+                    recombination_list_started = True
                     logger.info("Total no. of detected recombination events: %d", n_recombinations)
 
                 # Superreads in superreads_list are in the same order as individuals were added to the pedigree
@@ -679,7 +685,10 @@ def run_whatshap(
 
             if gtchange_list_filename:
                 logger.info("Writing list of changed genotypes to %r", gtchange_list_filename)
-                write_changed_genotypes(gtchange_list_filename, changed_genotypes)
+                write_changed_genotypes(
+                    gtchange_list_filename, changed_genotypes, append=gtchange_list_started
+                )
+                gtchange_list_started = True
 
             logger.debug("Chromosome %r finished", chromosome)
 
@@ -973,11 +982,21 @@ def find_mendelian_conflicts(trios: Sequence[Trio], variant_table: VariantTable)
     return mendelian_conflicts
 
 
-def write_changed_genotypes(gtchange_list_filename, changed_genotypes):
-    with open(gtchange_list_filename, "w") as f:
-        print(
-            "#sample", "chromosome", "position", "REF", "ALT", "old_gt", "new_gt", sep="\t", file=f
-        )
+def write_changed_genotypes(gtchange_list_filename, changed_genotypes, append=False):
+    """Write the header and the given changes; with append=True, add the changes to an existing file"""
+    with open(gtchange_list_filename, "a" if append else "w") as f:
+        if not append:
+            print(
+                "#sample",
+                "chromosome",
+                "position",
+                "REF",
+                "ALT",
+                "old_gt",
+                "new_gt",
+                sep="\t",
+                file=f,
+            )
         for changed_genotype in changed_genotypes:
             print(
                 changed_genotype.sample,
@@ -1000,8 +1019,13 @@ def write_recombination_list(
     recombination_costs: Sequence[int],
     transmission_vector: Sequence[int],
     trios: Sequence[Trio],
+    append: bool = False,
 ) -> int:
-    """Return total number of recombinations"""
+    """
+    Return total number of recombinations
+
+    With append=True, the events are added to an existing file instead of starting a new one.
+    """
 
     transmission_vector_trio: Mapping[str, MutableSequence[int]] = defaultdict(list)
     for transmission_vector_value in transmission_vector:
@@ -1009,20 +1033,21 @@ def write_recombination_list(
             value = transmission_vector_value % 4
             transmission_vector_value = transmission_vector_value // 4
             transmission_vector_trio[trio.child].append(value)
-    with open(path, "w") as f:
+    with open(path, "a" if append else "w") as f:
         n = 0
-        print(
-            "#child_id",
-            "chromosome",
-            "position1",
-            "position2",
-            "transmitted_hap_father1",
-            "transmitted_hap_father2",
-            "transmitted_hap_mother1",
-            "transmitted_hap_mother2",
-            "recombination_cost",
-            file=f,
-        )
+        if not append:
+            print(
+                "#child_id",
+                "chromosome",
+                "position1",
+                "position2",
+                "transmitted_hap_father1",
+                "transmitted_hap_father2",
+                "transmitted_hap_mother1",
+                "transmitted_hap_mother2",
+                "recombination_cost",
+                file=f,
+            )
         for trio in trios:
             recombination_events = find_recombination(
                 transmission_vector_trio[trio.child],
